@@ -337,7 +337,7 @@ fn c14_multi_eval(c: &C14Multi, r: &mut Report) {
     let mut ia: Option<String> = None;
     let mut bi = 0;
     let mut nth = 0;
-    let word: Vec<String> = c.ops.iter().map(|o| match o { GOp::Set(cl) => format!("set({})", cl.key()), GOp::Remove(k) => format!("remove({})", k), GOp::Extend(kv) => format!("extend({})", kv.iter().map(|x| x.0.as_str()).collect::<Vec<_>>().join(",")), GOp::Footer(_) => "footer".into(), GOp::Assertion(_) => "assertion".into(), GOp::Build => "BUILD".into() }).collect();
+    let word: Vec<String> = c.ops.iter().map(|o| match o { GOp::Set(cl) => format!("set({})", cl.key()), GOp::Remove(k) => format!("remove({})", k), GOp::Extend(kv) => format!("extend({})", kv.iter().map(|x| x.0.as_str()).collect::<Vec<_>>().join(",")), GOp::Footer(_) => "footer".into(), GOp::Assertion(_) => "assertion".into(), GOp::Build => "BUILD".into(), GOp::UseKey(_) => "use-key".into() }).collect();
     for op in &c.ops {
         match op {
             GOp::Set(cl) => model.push(ClaimOp::Set(cl.clone())),
@@ -346,6 +346,7 @@ fn c14_multi_eval(c: &C14Multi, r: &mut Report) {
             GOp::Footer(f) => footer = Some(f.clone()),
             GOp::Assertion(a) if c.p.has_assertion() => ia = Some(a.clone()),
             GOp::Assertion(_) => {}
+            GOp::UseKey(_) => {}
             GOp::Build => {
                 nth += 1;
                 r.evaluations += 1;
